@@ -18,7 +18,7 @@ ASSUMPTIONS = [
   "target are left open by the statement: not judged (counted as 'open')",
   "Python's omitted slice bounds (None) mean 0 / n",
 ]
-QUICK_S = 60
+QUICK_S = 240
 THOROUGH_S = 900
 
 _env = {}
